@@ -269,8 +269,10 @@ DeliverTx(s, tx) ==
     IF tx.k = "garbage" THEN {Res(s, CodeError, <<>>)}
     (* "forged": the 65 signature bytes of an earlier transaction of tx.s in front of a different
        payload (a config vote). The signature does not cover the payload: the recovered signer is
-       some address outside the universe, whose vote is refused. *)
-    ELSE IF tx.k = "forged" THEN {Res(s, CodeError, <<>>)}
+       some address outside the universe, whose vote is refused
+       (deliverBatchConfig answers "already accepted" before it looks at the sender) *)
+    ELSE IF tx.k = "forged" THEN
+        {Res(s, IF WithFlags(tx.cfg, FALSE, FALSE) = LastCfg(s) THEN CodeSeen ELSE CodeError, <<>>)}
     ELSE IF tx.k = "wrongchain" THEN {Res(s, CodeError, <<>>)}
     ELSE IF NonceUsed(s, tx.s, tx.n) THEN {Res(s, CodeError, <<>>)}
     ELSE DeliverMessage([s EXCEPT !.nonces[tx.s] = AddSorted(@, tx.n)], tx)
